@@ -161,10 +161,14 @@ def read_datagram(data):
 
 class UdpclWorld(object):
 
-    def __init__(self, mtu, prop='C13'):
+    def __init__(self, mtu, prop='C13', comp=False):
+        ''' comp: the two agents are the UDPCL daemons of two nodes of a composition (harness/drivers/comp_world.py):
+        each sits at the well-known object path on its own bus and owns a bus name; send requests come from the
+        BP agent of the sending node through the real adaptor, and the receiving node's adaptor pops the data. '''
         GLib.reset()
         dbus.bus.BusConnection.reset_all()
         dbus.RECORDER.clear()
+        self.comp = comp
         self.log = []
         self.mtu = mtu
         self.net = Net()
@@ -179,9 +183,12 @@ class UdpclWorld(object):
         cfg_s._bus_conn = dbus.bus.BusConnection('udpcl-s')
         cfg_r = uconfig.Config()
         cfg_r._bus_conn = dbus.bus.BusConnection('udpcl-r')
-        self.sender = uagent.Agent(cfg_s, bus_kwargs=dict(conn=cfg_s.bus_conn, object_path='/org/ietf/dtn/udpcl/AgentS'))
+        path_s = '/org/ietf/dtn/udpcl/Agent' if comp else '/org/ietf/dtn/udpcl/AgentS'
+        path_r = '/org/ietf/dtn/udpcl/Agent' if comp else '/org/ietf/dtn/udpcl/AgentR'
+        self.sender = uagent.Agent(cfg_s, bus_kwargs=dict(conn=cfg_s.bus_conn, object_path=path_s))
         self.net.default_local = RECEIVER
-        self.receiver = uagent.Agent(cfg_r, bus_kwargs=dict(conn=cfg_r.bus_conn, object_path='/org/ietf/dtn/udpcl/AgentR'))
+        self.receiver = uagent.Agent(cfg_r, bus_kwargs=dict(conn=cfg_r.bus_conn, object_path=path_r))
+        self.bus_s, self.bus_r = cfg_s.bus_conn, cfg_r.bus_conn
         self.receiver.listen(RECEIVER[0], RECEIVER[1])
         self.rsock = [s for s in self.net.sockets if s.local == RECEIVER][0]
         self.net.default_local = SENDER
@@ -191,6 +198,32 @@ class UdpclWorld(object):
         self.emit('Scenario', s={'prop': prop, 'mtu': mtu if mtu is not None else -1, 'once': False, 'minenv': 0})
         self.pending = []       # datagrams emitted by the sender, not yet delivered (src, data, pieces)
         self.npieces = {}
+        if comp:
+            self._hook_for_composition()
+
+    def _hook_for_composition(self):
+        world = self
+        send_inner = self.sender.send_bundle_data
+        pop_inner = self.receiver.recv_bundle_pop_data
+
+        def send_bundle_data(data, params):
+            bid = send_inner(data, params)
+            world.note_request(str(bid), bytes(data))
+            return bid
+
+        def recv_bundle_pop_data(bid):
+            data = pop_inner(bid)
+            world.emit('Queued', bid=str(bid), len=len(bytes(data)), dig=dig(bytes(data)))
+            return data
+        self.sender.send_bundle_data = send_bundle_data
+        self.receiver.recv_bundle_pop_data = recv_bundle_pop_data
+
+    def note_request(self, x, data):
+        self.requests[x] = bytes(data)
+        self.by_dig[dig(data)] = x
+        self.emit('Request', x=x, total=len(data), dig=dig(data))
+        env = len(bp7.enc({2: [int(x), len(data), len(data), b'']})) - 1 + len(bp7.head(2, len(data)))
+        self.log[0]['s']['minenv'] = max(self.log[0]['s']['minenv'], env)
 
     def emit(self, a, **kw):
         ev = {'a': a}
@@ -204,7 +237,7 @@ class UdpclWorld(object):
         self.emit('Sig', who=who, n=ev.name, sigt=dbus.parse_signature(ev.sig), tags=list(ev.tags))
         if who == 'S' and ev.name == 'send_bundle_finished':
             self.emit('SendDone', x=str(ev.args[0]))
-        if who == 'R' and ev.name == 'recv_bundle_finished':
+        if who == 'R' and ev.name == 'recv_bundle_finished' and not self.comp:
             bid = str(ev.args[0])
             dbus.RECORDER.enabled = False
             try:
